@@ -1790,6 +1790,14 @@ writer_recurse_struct_or_dict_entry (DBusTypeWriter   *writer,
         return FALSE;
     }
 
+  /* ... and, unless the typecode is only verified, to insert it into
+   * the signature */
+  if (sub->type_str != NULL && !sub->type_pos_is_expectation)
+    {
+      if (!_dbus_string_alloc_space (sub->type_str, 1))
+        return FALSE;
+    }
+
   if (!write_or_verify_typecode (sub, begin_char))
     _dbus_assert_not_reached ("failed to insert struct typecode after prealloc");
 
